@@ -87,7 +87,15 @@ let rec parse_val (toks : string list) : val0 * string list =
     else if t = "F" then (VBool false, rest)
     else if t = "MARK" then (VMark, rest)
     else if starts t "i:" then (VInt (z_of_dec (after t "i:")), rest)
+    else if starts t "i8:" then (VInt (z_of_dec (after t "i8:")), rest)
+    else if starts t "i16:" then (VInt (z_of_dec (after t "i16:")), rest)
+    else if starts t "i32:" then (VInt (z_of_dec (after t "i32:")), rest)
+    else if starts t "i0:" then (VInt (z_of_dec (after t "i0:")), rest)
     else if starts t "u:" then (VUint (z_of_dec (after t "u:")), rest)
+    else if starts t "u8:" then (VUint (z_of_dec (after t "u8:")), rest)
+    else if starts t "u16:" then (VUint (z_of_dec (after t "u16:")), rest)
+    else if starts t "u32:" then (VUint (z_of_dec (after t "u32:")), rest)
+    else if starts t "u0:" then (VUint (z_of_dec (after t "u0:")), rest)
     else if starts t "L:" then (VBig (fresh_id (), z_of_dec (after t "L:")), rest)
     else if starts t "f:" then (VFloat (n_of_hex (after t "f:")), rest)
     else if starts t "f32:" then (VFloat (f32_to_f64 (n_of_hex (after t "f32:"))), rest)
@@ -199,6 +207,72 @@ let run_dec (pd : string) (su : string) (lm : string) (hex : string) : string =
 
 let show_opt_hin (v : val0) : string = b01 (hashable v)
 
+let dumps (v : val0) : string = string_of_bytes (dump_val !parse_heap v)
+
+let show_entries (es : (val0 * val0) list) : string =
+  let items = List.sort compare (List.map (fun (k, v) -> dumps k ^ " " ^ dumps v) es) in
+  Printf.sprintf "iter(%d)={ %s }" (List.length es) (String.concat " ; " items)
+
+(* a history of Dict operations: the Dict model (choose_first) and the RefDict specification
+   side by side; multi = indices of Get operations whose key equals several stored keys *)
+let run_dict (toks : string list) : string =
+  parse_heap := [];
+  let es = ref [] and rs = ref [] in
+  let out = ref [] and rout = ref [] and multi = ref [] in
+  let idx = ref 0 in
+  let rec loop toks =
+    match toks with
+    | [] -> ()
+    | "S" :: rest ->
+      let (k, r1) = parse_val rest in
+      let (v, r2) = parse_val r1 in
+      (match dict_set choose_first k v !es with
+       | Some es' -> es := es'; rs := ref_set k v !rs; out := "S:ok" :: !out; rout := "S:ok" :: !rout
+       | None -> out := "S:unhashable" :: !out; rout := "S:unhashable" :: !rout);
+      incr idx; loop r2
+    | "D" :: rest ->
+      let (k, r1) = parse_val rest in
+      (match dict_del choose_first k !es with
+       | Some es' -> es := es'; rs := ref_del k !rs; out := "D:ok" :: !out; rout := "D:ok" :: !rout
+       | None -> out := "D:unhashable" :: !out; rout := "D:unhashable" :: !rout);
+      incr idx; loop r1
+    | "G" :: rest ->
+      let (k, r1) = parse_val rest in
+      (match dict_get choose_first k !es with
+       | Some (Some v) -> out := ("G:" ^ dumps v) :: !out
+       | Some None -> out := "G:none" :: !out
+       | None -> out := "G:unhashable" :: !out);
+      (if not (hashable k) then rout := "G:unhashable" :: !rout
+       else match ref_get k !rs with
+         | Some v -> rout := ("G:" ^ dumps v) :: !rout
+         | None -> rout := "G:none" :: !rout);
+      if List.length (List.filter (fun (k', _) -> py_eq k k') !rs) > 1 then
+        multi := string_of_int !idx :: !multi;
+      incr idx; loop r1
+    | "L" :: rest ->
+      out := ("L:" ^ string_of_int (List.length !es)) :: !out;
+      rout := ("L:" ^ string_of_int (List.length !rs)) :: !rout;
+      incr idx; loop rest
+    | "I" :: rest ->
+      out := show_entries !es :: !out; rout := show_entries !rs :: !rout;
+      incr idx; loop rest
+    | t :: _ -> failwith ("bad dict op " ^ t) in
+  loop toks;
+  String.concat " | " (List.rev !out) ^ " ## " ^ String.concat " | " (List.rev !rout)
+  ^ " ## multi=" ^ String.concat "," (List.rev !multi)
+
+let run_lookup (n : string) (toks : string list) : string =
+  parse_heap := [];
+  let (a, r1) = parse_val toks in
+  let (b, _) = parse_val r1 in
+  match dict_set choose_first a (VInt (z_of_int 1)) [] with
+  | None -> "set:unhashable"
+  | Some es ->
+    match dict_get choose_first b es with
+    | None -> "get:unhashable"
+    | Some (Some _) -> Printf.sprintf "found=%s/%s" n n
+    | Some None -> Printf.sprintf "found=0/%s" n
+
 let handle (line : string) : string =
   match split_ws line with
   | [] -> ""
@@ -212,6 +286,8 @@ let handle (line : string) : string =
     Printf.sprintf "eq=%s ha=%s hb=%s samehash=%s pyeq=%s"
       (b01 (go_equal a b)) (b01 (hashable a)) (b01 (hashable b))
       (b01 (hash_same a b)) (b01 (py_eq a b))
+  | "dict" :: rest -> run_dict rest
+  | "lookup" :: n :: rest -> run_lookup n rest
   | "declong" :: rest ->
     let h = match rest with [h] -> h | _ -> "" in
     string_of_bytes (dec_of_Z (decode_long (bytes_of_hex h)))
